@@ -195,9 +195,12 @@ class SList:
 
     def get(self, idx):
         """idx: normalised index (python int or Int term)"""
-        tr = getattr(self, 'transient', None)
-        if tr is not None and z3.is_true(z3.simplify(zi(idx) == tr[0])):
-            return tr[1]
+        for (ti, tv) in list(getattr(self, 'transients', {}).values()):
+            same = z3.simplify(zi(idx) == ti)
+            if z3.is_true(same):
+                return tv
+            if not z3.is_false(same):
+                raise Unsupported('read of a list slot that may hold a transient array of another rank')
         if self.items is not None:
             c = as_conc(idx)
             if c is not None:
@@ -229,17 +232,25 @@ class SList:
         self.fn, self.length, self.items = f, len(items), None
 
     def set(self, idx, val):
-        # a core list transiently holding a matrix (x.cores[i] = <2-d>; x.cores[i] = x.cores[i].reshape(4-d)): the matrix is
-        # kept aside and must be replaced by a 4-d array before the list is inspected by a specification
-        if self.kind == 'arr' and isinstance(val, SArr) and len(val.shape) != 4:
-            self.transient = (zi(idx), val)
-            return
-        tr = getattr(self, 'transient', None)
-        if tr is not None:
-            if z3.is_true(z3.simplify(zi(idx) == tr[0])):
-                self.transient = None
-            else:
-                raise Unsupported('core list written while another slot holds a non-4-d array')
+        # A typed list (cores: 4-d arrays, stacks: Optional n-d arrays) may transiently hold an array of another rank
+        # (x.cores[i] = <matrix>; ...; x.cores[i] = x.cores[i].reshape(4-d)).  Reads at the syntactically same index see
+        # the stored value; every specification sees an unknown element of unknown rank in that slot.
+        want = 4 if self.kind == 'arr' else int(self.kind[6:]) if self.kind.startswith('optarr') else None
+        key = str(z3.simplify(zi(idx)))
+        tr = getattr(self, 'transients', None)
+        if tr is None:
+            tr = self.transients = {}
+        if want is not None and isinstance(val, SArr) and len(val.shape) != want:
+            tr[key] = (zi(idx), val)
+            garbage = SArr([fresh('g') for _ in range(want)], fresh('gcx', 'bool'), fresh('gbuf'), False, ndim=fresh('gnd'))
+            val = garbage if not self.kind.startswith('optarr') else SOpt(fresh('gdef', 'bool'), garbage)
+        else:
+            for k2, (ti, _) in list(tr.items()):
+                same = z3.simplify(zi(idx) == ti)
+                if z3.is_true(same):
+                    del tr[k2]
+                elif not z3.is_false(same):
+                    raise Unsupported('list slot written while another slot may hold a transient array')
         c = as_conc(idx)
         if self.items is not None and c is not None:
             self.items[c] = val
@@ -252,7 +263,7 @@ class SList:
     def snapshot(self):
         """immutable view (same ref) for old() references"""
         v = SList(self.ref, self.length, self.fn, None if self.items is None else list(self.items), self.kind)
-        v.transient = getattr(self, 'transient', None)
+        v.transients = dict(getattr(self, 'transients', {}) or {})
         return v
 
 
